@@ -19,16 +19,20 @@ namespace CweModel.Itv
 
 /-! ## machine arithmetic -/
 
+/-- `2^w` as an integer. Kept as an opaque atom in proofs (`omega` treats `pow2 w` as a variable; the
+facts needed are `pow2_pos` and `pow2_eq : pow2 w = 2 * pow2 (w - 1)`). -/
+def pow2 (w : Nat) : Int := ((2 ^ w : Nat) : Int)
+
 /-- two's complement wrap of an integer to `w` bits, signed reading -/
 def wrap (w : Nat) (x : Int) : Int := x.bmod (2 ^ w)
 
 /-- unsigned reading of (the `w`-bit pattern of) `x` -/
-def toU (w : Nat) (x : Int) : Nat := (x % ((2 ^ w : Nat) : Int)).toNat
+def toU (w : Nat) (x : Int) : Nat := (x % pow2 w).toNat
 
 /-- `Bitvector::signed_min_value(w)` -/
-def smin (w : Nat) : Int := -(((2 ^ (w - 1) : Nat) : Int))
+def smin (w : Nat) : Int := -(pow2 (w - 1))
 /-- `Bitvector::signed_max_value(w)` -/
-def smax (w : Nat) : Int := ((2 ^ (w - 1) : Nat) : Int) - 1
+def smax (w : Nat) : Int := pow2 (w - 1) - 1
 
 /-- `x` is the signed value of some `w`-bit vector -/
 def InRange (w : Nat) (x : Int) : Prop := smin w ≤ x ∧ x ≤ smax w
@@ -167,23 +171,26 @@ end Interval
 
 /-! ## `StrideRounding for Bitvector` (interval.rs) -/
 
-/-- `round_up_to_stride_of` -/
+/-- `round_up_to_stride_of` (after the repair: the rounded value is computed in `i128` and compared
+with the maximal signed value; before, a difference ≥ 2^(w-1) was misread as negative) -/
 def roundUpToStrideOf (x : Int) (I : Interval) : Option Int :=
   if I.stride = 0 ∨ I.w > 64 then some x
   else
     let diff := i128 ((tryToI128 I.w I.start).getD 0 - (tryToI128 I.w x).getD 0)
     let diff := trem diff I.stride
     let diff := trem (i128 (diff + I.stride)) I.stride
-    signedAddOverflowChecked I.w x (fromU64 I.w (toU 64 diff))
+    let rounded := i128 ((tryToI128 I.w x).getD 0 + diff)
+    if rounded > smax I.w then none else some (wrap I.w rounded)
 
-/-- `round_down_to_stride_of` -/
+/-- `round_down_to_stride_of` (repaired like `round_up_to_stride_of`) -/
 def roundDownToStrideOf (x : Int) (I : Interval) : Option Int :=
   if I.stride = 0 ∨ I.w > 64 then some x
   else
     let diff := i128 ((tryToI128 I.w x).getD 0 - (tryToI128 I.w I.stop).getD 0)
     let diff := trem diff I.stride
     let diff := trem (i128 (diff + I.stride)) I.stride
-    signedSubOverflowChecked I.w x (fromU64 I.w (toU 64 diff))
+    let rounded := i128 ((tryToI128 I.w x).getD 0 - diff)
+    if rounded < smin I.w then none else some (wrap I.w rounded)
 
 /-! ## `IntervalDomain` (interval.rs) -/
 
@@ -259,28 +266,42 @@ end IntervalDomain
 
 /-! ## basic facts about the machine arithmetic -/
 
-theorem two_pow_pos (w : Nat) : (0 : Int) < ((2 ^ w : Nat) : Int) := by
-  have := Nat.two_pow_pos w; omega
+theorem pow2_pos (w : Nat) : 0 < pow2 w := by
+  have := Nat.two_pow_pos w; unfold pow2; omega
 
 /-- `2^w = 2 * 2^(w-1)` for positive widths, the only fact about powers most proofs need -/
-theorem two_pow_eq (w : Nat) (hw : 0 < w) : ((2 ^ w : Nat) : Int) = 2 * ((2 ^ (w - 1) : Nat) : Int) := by
+theorem pow2_eq (w : Nat) (hw : 0 < w) : pow2 w = 2 * pow2 (w - 1) := by
   obtain ⟨k, rfl⟩ : ∃ k, w = k + 1 := ⟨w - 1, by omega⟩
-  simp [Nat.pow_succ]; omega
+  unfold pow2
+  have : 2 ^ (k + 1) = 2 * 2 ^ k := by rw [Nat.pow_succ]; omega
+  rw [this]; simp
+
+theorem pow2_add (a b : Nat) : pow2 (a + b) = pow2 a * pow2 b := by
+  unfold pow2; rw [Nat.pow_add]; simp
+
+theorem pow2_le_pow2 {a b : Nat} (h : a ≤ b) : pow2 a ≤ pow2 b := by
+  unfold pow2
+  have := Nat.pow_le_pow_right (by decide : 0 < 2) h
+  omega
+
+theorem pow2_lt_pow2 {a b : Nat} (h : a < b) : pow2 a < pow2 b := by
+  unfold pow2
+  have := Nat.pow_lt_pow_right (by decide : 1 < 2) h
+  omega
 
 theorem wrap_def (w : Nat) (x : Int) :
-    wrap w x = if x % ((2 ^ w : Nat) : Int) < (((2 ^ w : Nat) : Int) + 1) / 2
-      then x % ((2 ^ w : Nat) : Int) else x % ((2 ^ w : Nat) : Int) - ((2 ^ w : Nat) : Int) := by
-  simp only [wrap, Int.bmod_def]
+    wrap w x = if x % pow2 w < (pow2 w + 1) / 2 then x % pow2 w else x % pow2 w - pow2 w := by
+  simp only [wrap, pow2, Int.bmod_def]; rfl
 
 /-- characterisation of `wrap`: the unique representative in the signed range -/
 theorem wrap_spec (w : Nat) (hw : 0 < w) (x : Int) :
-    InRange w (wrap w x) ∧ ∃ k : Int, wrap w x = x + k * ((2 ^ w : Nat) : Int) := by
-  have hp := two_pow_pos (w - 1)
-  have h2 := two_pow_eq w hw
+    InRange w (wrap w x) ∧ ∃ k : Int, wrap w x = x + k * pow2 w := by
+  have hp := pow2_pos (w - 1)
+  have h2 := pow2_eq w hw
   rw [wrap_def]
   unfold InRange smin smax
-  generalize ((2 ^ w : Nat) : Int) = P at *
-  generalize ((2 ^ (w - 1) : Nat) : Int) = M at *
+  generalize pow2 w = P at *
+  generalize pow2 (w - 1) = M at *
   have hm0 : 0 ≤ x % P := Int.emod_nonneg _ (by omega)
   have hm1 : x % P < P := Int.emod_lt_of_pos _ (by omega)
   have hdiv : x % P = x - P * (x / P) := by have := Int.mul_ediv_add_emod x P; omega
@@ -294,12 +315,12 @@ theorem wrap_inRange (w : Nat) (hw : 0 < w) (x : Int) : InRange w (wrap w x) := 
 
 /-- two values in the signed range that differ by a multiple of `2^w` are equal -/
 theorem inRange_unique (w : Nat) (hw : 0 < w) {x y k : Int} (hx : InRange w x) (hy : InRange w y)
-    (h : x = y + k * ((2 ^ w : Nat) : Int)) : x = y := by
-  have hp := two_pow_pos (w - 1)
-  have h2 := two_pow_eq w hw
+    (h : x = y + k * pow2 w) : x = y := by
+  have hp := pow2_pos (w - 1)
+  have h2 := pow2_eq w hw
   unfold InRange smin smax at hx hy
-  generalize ((2 ^ w : Nat) : Int) = P at *
-  generalize ((2 ^ (w - 1) : Nat) : Int) = M at *
+  generalize pow2 w = P at *
+  generalize pow2 (w - 1) = M at *
   subst h2
   have : k = 0 := by
     rcases Int.lt_trichotomy k 0 with hk | hk | hk
@@ -314,35 +335,55 @@ theorem wrap_of_inRange (w : Nat) (hw : 0 < w) {x : Int} (hx : InRange w x) : wr
   obtain ⟨hr, k, hk⟩ := wrap_spec w hw x
   exact inRange_unique w hw hr hx hk
 
+/-- `wrap x` is the value in range congruent to `x`: to show `wrap w x = y` give the multiple -/
+theorem wrap_eq (w : Nat) (hw : 0 < w) {x y : Int} (k : Int) (hy : InRange w y) (h : x = y + k * pow2 w) :
+    wrap w x = y := by
+  obtain ⟨hr, k', hk'⟩ := wrap_spec w hw x
+  exact inRange_unique w hw hr hy (k := k' + k) (by rw [hk', h, Int.add_mul]; omega)
+
 /-- `wrap` of a value at distance one range from the signed range: the three cases -/
 theorem wrap_cases (w : Nat) (hw : 0 < w) (x : Int)
     (h1 : 3 * smin w ≤ x) (h2 : x ≤ 3 * smax w + 2) :
     (InRange w x ∧ wrap w x = x) ∨
-    (smax w < x ∧ wrap w x = x - ((2 ^ w : Nat) : Int)) ∨
-    (x < smin w ∧ wrap w x = x + ((2 ^ w : Nat) : Int)) := by
-  have hp := two_pow_pos (w - 1)
-  have h2' := two_pow_eq w hw
+    (smax w < x ∧ wrap w x = x - pow2 w) ∨
+    (x < smin w ∧ wrap w x = x + pow2 w) := by
+  have hp := pow2_pos (w - 1)
+  have h2' := pow2_eq w hw
   by_cases hx : InRange w x
   · exact .inl ⟨hx, wrap_of_inRange w hw hx⟩
   · unfold InRange at hx
     by_cases hgt : smax w < x
     · refine .inr (.inl ⟨hgt, ?_⟩)
-      obtain ⟨hr, k, hk⟩ := wrap_spec w hw x
-      have hin : InRange w (x - ((2 ^ w : Nat) : Int)) := by
-        unfold InRange smin smax at *; omega
-      exact inRange_unique w hw hr hin (k := k + 1) (by rw [hk, Int.add_mul]; omega)
+      exact wrap_eq w hw 1 (by unfold InRange smin smax at *; omega) (by omega)
     · refine .inr (.inr ⟨by omega, ?_⟩)
-      obtain ⟨hr, k, hk⟩ := wrap_spec w hw x
-      have hin : InRange w (x + ((2 ^ w : Nat) : Int)) := by
-        unfold InRange smin smax at *; omega
-      exact inRange_unique w hw hr hin (k := k - 1) (by rw [hk, Int.sub_mul]; omega)
+      exact wrap_eq w hw (-1) (by unfold InRange smin smax at *; omega) (by omega)
 
 /-- the bridge to core's bit-vectors: the signed value of a `BitVec w` is in range -/
 theorem inRange_toInt {w : Nat} (x : BitVec w) : InRange w x.toInt := by
   have h1 := @BitVec.le_toInt w x
   have h2 := @BitVec.toInt_lt w x
-  have : ((2 ^ (w - 1) : Nat) : Int) = (2 : Int) ^ (w - 1) := by simp
+  have : pow2 (w - 1) = (2 : Int) ^ (w - 1) := by simp [pow2]
   unfold InRange smin smax; omega
+
+/-- unsigned reading of a value in range -/
+theorem toU_of_inRange (w : Nat) (hw : 0 < w) {x : Int} (hx : InRange w x) :
+    (toU w x : Int) = if x < 0 then x + pow2 w else x := by
+  have hp := pow2_pos (w - 1)
+  have h2 := pow2_eq w hw
+  unfold toU
+  unfold InRange smin smax at hx
+  have hP : 0 < pow2 w := pow2_pos w
+  rw [Int.toNat_of_nonneg (Int.emod_nonneg _ (by omega))]
+  split
+  · rw [← Int.add_mul_emod_self_left x (pow2 w) 1, Int.mul_one]
+    exact Int.emod_eq_of_lt (by omega) (by omega)
+  · exact Int.emod_eq_of_lt (by omega) (by omega)
+
+theorem toU_lt (w : Nat) (x : Int) : (toU w x : Int) < pow2 w := by
+  unfold toU
+  have hP : 0 < pow2 w := pow2_pos w
+  rw [Int.toNat_of_nonneg (Int.emod_nonneg _ (by omega))]
+  exact Int.emod_lt_of_pos _ hP
 
 namespace Interval
 
@@ -386,12 +427,10 @@ theorem wf_single (w : Nat) (hw : 0 < w) (x : Int) (hx : InRange w x) : (single 
   simp [WF, single, hw, hx]
 
 theorem wf_newTop (w : Nat) (hw : 1 < w) : (newTop w).WF := by
-  have hp : (2:Int) ≤ ((2 ^ (w - 1) : Nat) : Int) := by
-    obtain ⟨k, rfl⟩ : ∃ k, w = k + 2 := ⟨w - 2, by omega⟩
-    have := Nat.two_pow_pos k
-    have h : 2 ^ (k + 2 - 1) = 2 * 2 ^ k := by
-      rw [show k + 2 - 1 = k + 1 by omega, Nat.pow_succ]; omega
-    rw [h]; omega
+  have hp : (2:Int) ≤ pow2 (w - 1) := by
+    have h1 := pow2_eq (w - 1) (by omega)
+    have h2 := pow2_pos (w - 1 - 1)
+    omega
   simp only [WF, newTop, InRange, smin, smax]
   refine ⟨by omega, ⟨by omega, by omega⟩, ⟨by omega, by omega⟩, by omega, ?_, by simp [Int.one_dvd], by decide⟩
   constructor <;> intro h <;> omega
